@@ -18,6 +18,9 @@ use rnacos::config::core::{
 use rnacos::config::dal::ConfigHistoryParam;
 use rnacos::config::model::{ConfigHistoryItemDO, ConfigRaftCmd, ConfigValueDO};
 use rnacos::config::utils::param_utils;
+use rnacos::grpc::bistream_conn::BiStreamConn;
+use rnacos::grpc::bistream_manage::{BiStreamManage, BiStreamManageCmd};
+use rnacos::grpc::nacos_proto::Payload;
 use rnacos::raft::filestore::model::SnapshotHeaderDto;
 use rnacos::raft::filestore::raftsnapshot::{
     SnapshotReader, SnapshotWriterActor, SnapshotWriterRequest,
@@ -112,6 +115,13 @@ struct Node {
     addr: Addr<ConfigActor>,
 }
 
+/// a gRPC client connection whose outgoing stream ends in a channel the harness reads
+struct Conn {
+    client: String,
+    rx: tokio::sync::mpsc::Receiver<Result<Payload, tonic::Status>>,
+    _body_tx: hyper::body::Sender,
+}
+
 struct Run {
     nodes: Vec<Node>,
     cur: usize,
@@ -120,6 +130,8 @@ struct Run {
     snapshots: HashMap<u64, Vec<(String, Vec<u8>, Vec<u8>)>>,
     // the Raft premise for multi-node history-id cases: allocations of the leader, the committed
     // log, the applied index of every node and of every snapshot
+    manage: Option<Addr<BiStreamManage>>,
+    conns: Vec<Conn>,
     last_alloc: Option<(u64, Option<u64>)>,
     log: Vec<(u64, Option<u64>)>,
     applied: Vec<usize>,
@@ -136,6 +148,8 @@ impl Run {
             receivers: vec![],
             dirs: vec![],
             snapshots: HashMap::new(),
+            manage: None,
+            conns: vec![],
             last_alloc: None,
             log: vec![],
             applied: vec![0],
@@ -145,6 +159,29 @@ impl Run {
 
     fn addr(&self) -> Addr<ConfigActor> {
         self.nodes[self.cur].addr.clone()
+    }
+
+    /// ConfigChangeNotifyRequest payloads that reached the clients' streams: [[client, [d,g,t]],..]
+    async fn poll_notifications(&mut self) -> Vec<Value> {
+        if self.conns.is_empty() {
+            return vec![];
+        }
+        // ConfigActor -> BiStreamManage -> BiStreamConn -> spawned send: a few scheduler turns
+        for _ in 0..24 {
+            tokio::task::yield_now().await;
+        }
+        let mut out = vec![];
+        for c in self.conns.iter_mut() {
+            while let Ok(Ok(p)) = c.rx.try_recv() {
+                let ty = p.metadata.as_ref().map(|m| m.r#type.clone()).unwrap_or_default();
+                if ty == "ConfigChangeNotifyRequest" {
+                    let body: Value = serde_json::from_slice(&p.body.map(|b| b.value).unwrap_or_default())
+                        .unwrap_or(Value::Null);
+                    out.push(json!([c.client, [body["dataId"], body["group"], body["tenant"]]]));
+                }
+            }
+        }
+        out
     }
 
     fn poll_answers(&mut self) -> Vec<Value> {
@@ -586,6 +623,31 @@ impl Run {
                 }
                 json!("ok")
             }
+            // ["conn", client]: a real BiStreamManage (injected into the ConfigActor's subscriber as
+            // `inject` does) with a real BiStreamConn whose sender side is read by the harness
+            "conn" => {
+                if self.manage.is_none() {
+                    let m = BiStreamManage::new().start();
+                    addr.send(VerifConfigCmd::SetConnManage(m.clone())).await.ok();
+                    self.manage = Some(m);
+                }
+                let manage = self.manage.clone().unwrap();
+                let client = s(&op[1]);
+                let (tx, rx) = tokio::sync::mpsc::channel(64);
+                let (body_tx, body) = hyper::Body::channel();
+                use tonic::codec::Codec;
+                let decoder = tonic::codec::ProstCodec::<Payload, Payload>::default().decoder();
+                let streaming = tonic::Streaming::new_request(decoder, body);
+                let cid = Arc::new(client.clone());
+                let conn = BiStreamConn::new(tx, cid.clone(), streaming, manage.clone());
+                manage.send(BiStreamManageCmd::AddConn(cid, conn)).await.ok();
+                self.conns.push(Conn {
+                    client,
+                    rx,
+                    _body_tx: body_tx,
+                });
+                json!("ok")
+            }
             // leader side of a publish: the real next_state of the current node
             "alloc" => match addr.send(VerifConfigCmd::NextState).await {
                 Ok(Ok(VerifConfigResult::NextState(Some((id, mark))))) => {
@@ -677,7 +739,8 @@ fn run_once(case: &Value) -> (Value, u128) {
         for op in &ops {
             let r = run.op(op).await;
             let ans = run.poll_answers();
-            out.push(json!({"r": r, "ans": ans}));
+            let ntf = run.poll_notifications().await;
+            out.push(json!({"r": r, "ans": ans, "ntf": ntf}));
         }
         out
     });
